@@ -44,6 +44,14 @@ def build(tier, ctx):
                                             stretched=None):
             tasks.append({"name": nm, "defn": dsl.to_list(d), "k": 2,
                           "pres": ["canonical"], "mode": "c01", "seed": hs})
+    # wave 14: fork definitions of F_4 under event names of which one is the
+    # joined spelling of others
+    for mp, names in pvcommon.joined_name_maps(("_", ",", "")).items():
+        for nm, d in pvcommon.scope_defs(ctx["repo"], 4, with_corpus=False):
+            if dsl.constructs(d) & {"and", "or", "xor"}:
+                tasks.append({"name": nm, "defn": dsl.to_list(d), "k": 2,
+                              "pres": ["canonical"], "mode": "c01",
+                              "names": names, "names_map": mp})
     # bulk evidence: more than a thousand jobs in one run
     for nm, d in pvcommon.scope_defs(ctx["repo"], 3 if tier == "quick" else 4,
                                      with_corpus=False):
